@@ -586,7 +586,7 @@ func main() {
 			fmt.Sprintf("pixel-decoding entry points are skipped when any header in the input declares more than %d pixels (counted as skipped-declared-large)", maxDeclaredArea))
 
 		witness := []byte("RIFF\x02\x00\x00\x00WEBPVP8 ")
-		total := 6500
+		total := 5000
 		if c.Thorough() {
 			total = 60000
 		}
@@ -667,6 +667,8 @@ func main() {
 			}
 		}
 		c.Count(fmt.Sprintf("size-boundary-inputs=%d", nb))
+		nw := walkFamily(rng.Fork(), func(kind string, b []byte) { evalInput(c, kind, b) })
+		c.Count(fmt.Sprintf("walk-boundary-inputs=%d", nw))
 		for i := 0; i < total; i++ {
 			var kind string
 			var b []byte
@@ -678,6 +680,22 @@ func main() {
 			evalInput(c, kind, b)
 		}
 	})
+}
+
+func parserClassLine(b []byte) (line string) {
+	defer func() {
+		if r := recover(); r != nil {
+			line = "panic"
+		}
+	}()
+	if len(b) > webp.MaxInputSize {
+		return "err"
+	}
+	f, err := webp.GetFeatures(bytes.NewReader(b))
+	if err != nil {
+		return "err"
+	}
+	return fmt.Sprintf("ok %d", f.FrameCount)
 }
 
 func hexOrDash(b []byte) string {
@@ -736,6 +754,9 @@ func evalInput(c *Ctx, kind string, b []byte) {
 	line, _ := muxh.DemuxLine(b)
 	c.Case("demux "+hx, line)
 	c.Count("demux-" + line[:minInt(len(line), 5)])
+
+	// container.NewParser (through webp.GetFeatures): outcome class and frame count vs ParserModel.parse_ex
+	c.Case("pclass "+hx, parserClassLine(b))
 
 	// mux.ReadChunkHeader / mux.ReadChunk called directly on the payload after the RIFF header
 	// (and on the raw input), under recover; compared with the model's read_chunk
